@@ -13,20 +13,20 @@ import (
 // shared grammar of C03 (totality), C12 (inputs are not modified), C17 (repeatable) and
 // C18 (concurrent use).
 type APICall struct {
-	Fn   string      `json:"fn"`
-	A    Paths       `json:"a"`    // first path set (subject / paths / pattern in A[0])
-	B    Paths       `json:"b"`    // second path set (clip / path in B[0])
-	Div  float64     `json:"div"`  // float variants see A/Div and B/Div
-	Rect RectJ       `json:"rect"` // possibly empty or inverted
-	CT   uint8       `json:"ct"`
-	FR   uint8       `json:"fr"`
-	JT   uint8       `json:"jt"`
-	ET   uint8       `json:"et"`
-	Prec int         `json:"prec"`
-	F    [3]float64  `json:"f"` // delta / epsilon / scale, miter limit, arc tolerance
-	I    int         `json:"i"` // steps, counts
-	Bo   [2]bool     `json:"bo"`
-	Q    P           `json:"q"`
+	Fn   string     `json:"fn"`
+	A    Paths      `json:"a"`    // first path set (subject / paths / pattern in A[0])
+	B    Paths      `json:"b"`    // second path set (clip / path in B[0])
+	Div  float64    `json:"div"`  // float variants see A/Div and B/Div
+	Rect RectJ      `json:"rect"` // possibly empty or inverted
+	CT   uint8      `json:"ct"`
+	FR   uint8      `json:"fr"`
+	JT   uint8      `json:"jt"`
+	ET   uint8      `json:"et"`
+	Prec int        `json:"prec"`
+	F    [3]float64 `json:"f"` // delta / epsilon / scale, miter limit, arc tolerance
+	I    int        `json:"i"` // steps, counts
+	Bo   [2]bool    `json:"bo"`
+	Q    P          `json:"q"`
 }
 
 var apiFns = []string{
